@@ -3,6 +3,7 @@ import PromModel.Tsdb.Merge
 import PromProofs.HistLayout
 import PromModel.Suites.HintSuite
 import PromProofs.HistHint
+import PromProofs.MergeHintGlue
 /-
   C12 — Counter-reset hints returned by queries are sound (layout level).
   Model: C11's chunk appender (`Prom.Hist.appendHist`), `hintOf` (= `counterResetHint`), `Chunk.read`,
@@ -107,6 +108,24 @@ theorem merge_consecutive_iff_unchanged (c c' : Merge.Chain) (cur : Merge.It) (s
 def hint_sound_merge_full : Prop :=
   ∀ (srcs : List (List (Int × Hist))) (out : List (Int × Hist)), (∀ s ∈ srcs, hintsSound s = true) →
     Prom.HintSuite.mergeRead srcs = some out → hintsSound out = true
+
+/-- **hint_sound_merge.**  `hint_sound_merge_full` for sources with strictly increasing timestamps (what series
+    iterators deliver; without that the literal statement is false, see the witness below): merging hint-sound
+    sources with the transcribed `chainSampleIterator` (C19's `Merge.Chain`: heap, duplicate-timestamp skipping,
+    `consecutive` flag, `At*` clearing the hint) yields a hint-sound stream.  Proof: the flag is set only when the
+    returned sample directly follows the previously returned sample inside ONE source (`Merge.drain_tr`), and
+    there the source's own soundness applies; every other NotCounterReset is cleared to Unknown. -/
+theorem hint_sound_merge (srcs : List (List (Int × Hist))) (out : List (Int × Hist))
+    (hs : ∀ s ∈ srcs, hintsSound s = true) (hsorted : ∀ s ∈ srcs, (s.map (·.1)).Pairwise (· < ·))
+    (h : Prom.HintSuite.mergeRead srcs = some out) : hintsSound out = true :=
+  Prom.HintSuite.mergeRead_sound srcs out hs hsorted h
+
+/-- the chain-iterator fact behind it, at trace level: a histogram sample handed out by `At*` with
+    NotCounterReset directly follows the previously returned sample inside one input -/
+theorem merge_consecutive_adjacent (srcs : List (List Merge.Sample)) (hsorted : ∀ l ∈ srcs, Merge.SortedL l)
+    (r o : List Merge.Sample) (hd : (Merge.Chain.ofLists (srcs.map fun l => (l, false))).drain = some (r, o)) :
+    Merge.Tr srcs none r o :=
+  (Merge.drain_tr srcs hsorted r o hd).1
 
 def hint_sound_query_full : Prop :=
   ∀ (samples : List (Int × Hist)) (cuts : List Bool) (s : Series),
